@@ -87,7 +87,7 @@ def consumeHs (s : Screen) (c : Conn) (fuel : Nat) : Conn × List String :=
       let (c', out) := consumeHs s { c with buf := c.buf.drop bs.length, expectHs := rest } fuel
       (c', s!"rx {c.id} HS {what} {hex bs}" :: out)
     else
-      ({ c with expectHs := [], phase := .closed },
+      ({ c with expectHs := [], phase := .closed, mute := true },
        [s!"!PARSE {c.id} handshake: expected {what} {hex bs}, got {hex (c.buf.take bs.length)}"])
   | .any what n :: rest =>
     if c.buf.length < n then (c, [])
@@ -157,7 +157,7 @@ def consumeNormal (view : Nat × Nat) (c : Conn) : Conn × List String := Id.run
   | none => c := { c with buf := [] }
   | some off =>
     out := out ++ [s!"!PARSE {c.id} not a well-formed server message at offset {off} of {c.buf.length}: {hex ((c.buf.drop off).take 24)}"]
-    c := { c with buf := [], phase := .closed }
+    c := { c with buf := [], phase := .closed, mute := true }
   return (c, out)
 
 def consume (s : Screen) (c : Conn) : Conn × List String :=
@@ -166,9 +166,14 @@ def consume (s : Screen) (c : Conn) : Conn × List String :=
   else if c1.phase == .normal then
     let (c2, o2) := consumeNormal (c1.viewSize s) c1
     (c2, o1 ++ o2)
-  else if c1.phase == .closed then ({ c1 with buf := [] }, o1)
+  else if c1.phase == .closed then
+    -- the protocol says the server has closed the connection (failed authentication, security type
+    -- that was not offered, scale factor 0): after that nothing but EOF may arrive
+    if c1.mute || c1.buf.isEmpty then ({ c1 with buf := [] }, o1)
+    else ({ c1 with buf := [], mute := true },
+          o1 ++ [s!"!PARSE {c1.id} {c1.buf.length} bytes after the point where this protocol version ends the connection: {hex (c1.buf.take 32)}"])
   else if c1.buf.isEmpty then (c1, o1)
-  else ({ c1 with buf := [], phase := .closed },
+  else ({ c1 with buf := [], phase := .closed, mute := true },
         o1 ++ [s!"!PARSE {c1.id} unexpected bytes during the handshake: {hex (c1.buf.take 24)}"])
 
 partial def geos : List String → Nat → List Geo × List String
@@ -203,7 +208,7 @@ def endOfOp (s : DState) : DState × List String := Id.run do
   let mut cs : List Conn := []
   for c in s.conns do
     let mut c := c
-    if c.phase != .closed then
+    if !c.mute then
       if !c.buf.isEmpty then
         out := out ++ [s!"!PARSE {c.id} incomplete message at end of op: {hex (c.buf.take 24)} ({c.buf.length} bytes)"]
         c := { c with buf := [] }
@@ -255,7 +260,9 @@ def dstep (s : DState) (toks : List String) : DState × List String :=
     | none => (s, ["!PARSE ? unreadable tx line"])
     | some bs =>
       withConn s id fun c => consume s.scr { c with buf := c.buf ++ bs }
-  | ["@st", id, "closed"] => withConn s id fun c => ({ c with phase := .closed, preds := [], expectHs := [] }, [])
+  | ["@st", id, "closed"] =>
+    -- handshake items the server still owes stay on the list: the end-of-op check reports them
+    withConn s id fun c => ({ c with phase := .closed, preds := [] }, [])
   | ["@."] => endOfOp s
   -- ---------------------------------------------------------------- configuration
   | ["screen", _, _, _] => (s, [])
@@ -289,7 +296,7 @@ def dstep (s : DState) (toks : List String) : DState × List String :=
       let (items, ph) := onAuth c (how == "good")
       ({ c with expectHs := c.expectHs ++ items, phase := ph }, [])
   | ["cinitclose", id] =>
-    withConn s id fun c => ({ c with phase := .closed, preds := [], expectHs := [], buf := [] }, [])
+    withConn s id fun c => ({ c with phase := .closed, mute := true, preds := [], expectHs := [], buf := [] }, [])
   | ["cinit", id, _] =>
     withConn s id fun c =>
       if c.phase != .init then (c, []) else
@@ -342,7 +349,7 @@ def dstep (s : DState) (toks : List String) : DState × List String :=
                                   curEmpty := kind == "2" && natD w == 1 && natD h == 1 },
               conns := s.conns.map fun c => { c with caps := { c.caps with cursorWasChanged := true } } }, [])
   | ["led", v] => ({ s with scr := { s.scr with led := intD v } }, [])
-  | ["close", id] => withConn s id fun c => ({ c with phase := .closed, preds := [], expectHs := [], buf := [] }, [])
+  | ["close", id] => withConn s id fun c => ({ c with phase := .closed, mute := true, preds := [], expectHs := [], buf := [] }, [])
   | _ => (s, [])
 
 /-- alarm lines carry the index of the op during which they were raised -/
